@@ -191,7 +191,7 @@ _MODELLED = ("Modelled, not verified: the C++ itself; the theorems are about the
 
 PROPS = {
     "C01": dict(
-        gens=[("multipath", gen.gen_C01, 0.6), ("build", gen.gen_C03, 0.2), ("setalg", gen.gen_C04, 0.2)],
+        gens=[("multipath", gen.gen_C01, 0.6), ("ev-repeat", gen.gen_C01_ev, 0.4), ("build", gen.gen_C03, 0.2), ("setalg", gen.gen_C04, 0.2)],
         quick=60, thorough=600,
         level_text="Proved for every domain, rule (fully/quasi/identity) and pair of diagrams: reduced diagrams "
                    "denoting the same function are identical, and every function has a reduced diagram "
@@ -232,7 +232,7 @@ PROPS = {
                    "documented errors) are applied to tables and the result is compared by table and canonical "
                    "EV+ diagram; EV* not covered."),
     "C10": dict(
-        gens=[("copy", gen.gen_C10, 0.8), ("copy-ev", gen.gen_C10_ev, 0.5), ("evstar", gen.gen_evstar, 0.3)],
+        gens=[("copy", gen.gen_C10, 0.8), ("copy-ev", gen.gen_C10_ev, 0.5), ("evstar", gen.gen_evstar, 0.3), ("from-index-set", gen.gen_C10_idx, 0.3)],
         quick=60, thorough=600,
         level_text="Proved: copy is the pointwise scalar conversion and copy-there-and-back is the identity "
                    "when the conversion is invertible on the values taken (via canonicity). Tie: every ordered "
@@ -255,7 +255,7 @@ PROPS["C19"] = dict(
                "EV+/EV* edge values are covered through C03-style scripts only.")
 
 PROPS["C18"] = dict(
-    gens=[("mmhist", gen.gen_C18, 0.8), ("growing-maximum", gen.gen_C18_growing, 0.6)], quick=40, thorough=600,
+    gens=[("mmhist", gen.gen_C18, 0.8), ("growing-maximum", gen.gen_C18_growing, 0.6), ("capacity-sized", gen.gen_C18_big, 0.5)], quick=40, thorough=600,
     rule="random request/recycle histories (5 styles x 2 granularities x 5 recycle orders); every live chunk is "
          "filled with a per-chunk sentinel re-checked after every few calls; distinct_nontrivial = distinct "
          "(style, address, size) responses with a non-null address",
@@ -366,7 +366,7 @@ PROPS["C12"] = dict(
                "clauses 10-12 under each policy), not by a theorem.")
 
 PROPS["C20"] = dict(
-    gens=[("pregen", gen.gen_C20, 0.7), ("pregen-skipped-levels", gen.gen_C20_skip, 0.5)], quick=50, thorough=500,
+    gens=[("pregen", gen.gen_C20, 0.7), ("pregen-skipped-levels", gen.gen_C20_skip, 0.5), ("pregen-dense", gen.gen_C20_dense, 0.6)], quick=50, thorough=500,
     level_text="Proved: saturation over separately supplied events returns the states reachable under the UNION "
                "of the events, whatever the grouping; it builds the identical diagram as breadth-first "
                "reachability over any diagram of the union. Tie: SATURATION_FORWARD over pregen_relation with "
